@@ -6,7 +6,7 @@ TB = ("Trusted base: CPython's ast; the op tables of qsa (kind/shape/alias/term 
 
 CHECKS = {
     "C01": {
-        "technique": "static analysis: abstract interpretation over a hash-consed term domain (normal forms of the defining formulas), symbolic shapes, exact dependence sets",
+        "technique": "static analysis: abstract interpretation over a hash-consed term domain (normal forms of the defining formulas), symbolic shapes, exact dependence sets; history independence by a three-call abstract interpretation (parameters replaced, inputs overwritten in place) compared under symbol renaming",
         "text": "Decides, for every parameter value at once, the structural clauses of the Born rule: amplitude^2 == unnormalised probability == exp(-E_lambda) as "
                 "identities of normal forms between sibling methods; psi == A(cos phi, sin phi); complex phase == -E_mu/2; positive state real with zero phase; energy == "
                 "-v.b - sum softplus(Wv+c); partition == sum exp(-E); exact dependence sets; vector and batched call forms (shapes). A static rule reasons about the code once; tests only sample zero-bias models.",
@@ -14,7 +14,7 @@ CHECKS = {
         "note": TB + "Not decided: floating-point agreement, overflow of exp, numeric unit norm. softplus(x)=log sum_h exp(hx) is the trusted identity linking the energy to the hidden-unit marginal.",
     },
     "C02": {
-        "technique": "static analysis: term normal forms + exchange-parity proof (Hermiticity), symbolic shapes with distinct axis symbols (row/column convention), dependence sets",
+        "technique": "static analysis: term normal forms + exchange-parity proof (Hermiticity), symbolic shapes with distinct axis symbols (row/column convention), dependence sets; history independence by a three-call abstract interpretation (parameters replaced, inputs overwritten in place) compared under symbol renaming",
         "text": "Proves Hermiticity of rho for all parameters by showing log|rho| symmetric and arg rho antisymmetric under exchange of the two configurations (three call forms); "
                 "checks that all matrix-valued functions put v on rows and vp on columns; proves rho(s,s) == (exp(-E_am(s)), 0) == reported probability (uses 1+2e^x+e^{2x}=(1+e^x)^2); "
                 "energy / partition normal forms of the purification RBM; exact dependence of rho on every bias.",
@@ -22,7 +22,7 @@ CHECKS = {
         "note": TB + "Not decided: positive semidefiniteness, entry-wise equality with the partial trace of the purification off the diagonal, numeric trace.",
     },
     "C05": {
-        "technique": "static analysis: term normal forms of the conditionals, loop summarisation (first + generic iteration) of the Gibbs loop, alias/effect facet for overwrite semantics",
+        "technique": "static analysis: term normal forms of the conditionals, loop summarisation (first + generic iteration) of the Gibbs loop, alias/effect facet for overwrite semantics; history independence by a three-call abstract interpretation (parameters replaced, inputs overwritten in place) compared under symbol renaming (incl. 'each call hands out its own tensor')",
         "text": "Decides that each conditional is sigmoid of the energy's own pre-activation with every bias, samplers are torch.bernoulli of that probability, one step samples all hidden "
                 "(and auxiliary) units from the current visible state and then the visible units from those fresh draws, the loop runs exactly k times (k=0 returns the start state, k=2 is the two-fold composition), "
                 "and the caller's start state is written iff overwrite=True (through sample() of all three state types).",
@@ -30,7 +30,7 @@ CHECKS = {
         "note": TB + "Not decided: the empirical law / detailed balance as numbers (they follow mathematically from exact conditionals and the hidden-then-visible order).",
     },
     "C08": {
-        "technique": "static analysis: effect analysis (no write reaches the caller's batch), term normal forms of the local estimators, call-record binding checks, loop summarisation",
+        "technique": "static analysis: effect analysis (no write reaches the caller's batch), term normal forms of the local estimators, call-record binding checks, loop summarisation; history independence by a three-call abstract interpretation (parameters replaced, inputs overwritten in place) compared under symbol renaming; necessary-condition rules imported from C01.R1-R3 and C02",
         "text": "For SigmaX/Y/Z and NeighbourInteraction (open/periodic) on all three state types: apply never writes samples or parameters; result is real of shape (B,); the X/Y estimators "
                 "sum psi(flip_i s)/psi(s) (times i(2s_i-1) for Y, taken from the unflipped sample at the same site) over all sites, divide by the denominator of the unflipped batch and by the number of sites; "
                 "Z is 2*mean-1; ZZ pairs (i, i+c) with the same c; importance weight == numerator(vp,v)/denominator(v) with rho(vp,v) argument order.",
@@ -38,7 +38,7 @@ CHECKS = {
         "note": TB + "Not decided: numeric equality of the exact expectation with Tr(rho O). Z sign convention is the library's documented to_pm1 map.",
     },
     "C09": {
-        "technique": "static analysis: effect/alias analysis with view semantics, functional-update terms for the exchange, call-record binding checks",
+        "technique": "static analysis: effect/alias analysis with view semantics, functional-update terms for the exchange, call-record binding checks; history independence by a three-call abstract interpretation (parameters replaced, inputs overwritten in place) compared under symbol renaming; necessary-condition rules imported from C01.R1-R3 and C02; storage identity of what is written back",
         "text": "swap is a correct three-step exchange on region A for int, list and unknown-kind regions (the temporary must be a copy because x[:, int] is a view); SWAP.apply never writes the batch, "
                 "passes fresh copies to swap, pairs each sample with a non-zero cyclic roll along the batch axis, weights swapped_k against original_k and returns Re(w1*w2) of shape (B,).",
         "design_ref": "DESIGN.md section 4 C09",
@@ -53,14 +53,14 @@ CHECKS = {
         "note": TB + "Not decided: bit-identical round trip of torch serialisation.",
     },
     "C12": {
-        "technique": "static analysis: typestate/protocol check - product of fit's CFG with the sticky stop flag compared (language inclusion both ways) with a reference automaton; effect facet locates parameter writes",
+        "technique": "static analysis: typestate/protocol check - product of fit's CFG with the sticky stop flag compared (language inclusion both ways) with a reference automaton; effect facet locates parameter writes; necessary-condition rules imported from C07.R6; event arguments and epoch range decided on values of an interpretation with symbolic (starting_epoch, epochs)",
         "text": "All stop points at once: the event language of fit (flag may be set inside any of the six events) equals the documented protocol for flag-at-entry 0 and 1; parameter effects occur only "
                 "between batch-start and batch-end; epoch range and event arguments; CallbackList dispatch order/arguments; LambdaCallback arities; no library code clears the flag; the setter rejects non-booleans.",
         "design_ref": "DESIGN.md section 4 C12",
         "note": TB + "Callbacks are opaque user code that may set the flag in any event; exceptions raised by callbacks and tqdm are out of scope. Counterexamples are shortest distinguishing event traces.",
     },
     "C13": {
-        "technique": "static analysis: rational-function identity test of the pairwise merge, integer lower-bound reasoning with path facts (divisor != 0), loop summarisation + call records for the schedule",
+        "technique": "static analysis: rational-function identity test of the pairwise merge, integer lower-bound reasoning with path facts (divisor != 0), loop summarisation + call records for the schedule; necessary-condition rules imported from C08.R1 and C16.R5",
         "text": "The merge routine equals the Chan pairwise update as an identity of rational functions on the generic branch and never divides by zero / uses the undefined variance of a one-element chunk; "
                 "both statistics drivers draw ceil(n/chains) times, use burn_in first and steps afterwards on the same continuing chains (overwrite=True internally), touch initial_state only under overwrite, "
                 "evaluate every observable on the chain state of the current draw, and report chains x draws.",
@@ -68,7 +68,7 @@ CHECKS = {
         "note": TB + "Not decided: the distribution of the draws. torch.var_mean is trusted to return the unbiased variance (NaN for one value).",
     },
     "C14": {
-        "technique": "static analysis: exhaustive who-may-call query over resolved names for randomness sources, must-reach check for seeding, whole-API effect analysis for parameter writes",
+        "technique": "static analysis: exhaustive who-may-call query over resolved names for randomness sources, must-reach check for seeding, whole-API effect analysis for parameter writes; class-level objects mutated through instances (state shared between models)",
         "text": "Every randomness source in the package is a consumer of torch's default generator (numpy/python RNGs, explicit generators and set iteration are violations; the matcher is kept honest by an "
                 "embedded positive example); set_random_seed passes the caller's seed to torch.manual_seed on every path; ~145 read-only entry contexts (states, RBMs, observables, metrics, rotations, save) "
                 "have an empty parameter-effect set while the whitelisted writers are seen writing.",
@@ -95,7 +95,7 @@ CHECKS.update({
         "note": TB + "Not decided: analytic correctness of rotated_gradient / pi_grad (derivatives through the basis rotation and the complex logarithm), the 1e-8 regulariser, finite-difference agreement.",
     },
     "C04": {
-        "technique": "static analysis: exact constant evaluation of the default unitaries over Q(sqrt 2), axis-role binding of index tensors vs einsum factors, index provenance (dependence) in the gather, order polarity of the Kronecker sweep",
+        "technique": "static analysis: exact constant evaluation of the default unitaries over Q(sqrt 2), axis-role binding of index tensors vs einsum factors, index provenance (dependence) in the gather, order polarity of the Kronecker sweep; history independence by a three-call abstract interpretation (parameters replaced, inputs overwritten in place) compared under symbol renaming; exact 1-4 site instances of the Kronecker sweep; sibling equality of the two call forms",
         "text": "Z is the identity, X and Y are unitary with U sigma U^dagger = diag(+1,-1) (rows = conjugated +1/-1 eigenvectors, exact arithmetic); in rotate_rho_probs both the model path and the explicit-rho path bind rho's "
                 "row index to the non-conjugated factor U and its column index to conj(U), and reductions remove exactly the expansion axes; the unitary is gathered as [site, :, measured outcome, summed input]; "
                 "sites are swept last-to-first with a stride starting at 1 (site 0 = leftmost Kronecker factor); rotate_rho = U (U rho)^dagger.",
@@ -103,7 +103,7 @@ CHECKS.update({
         "note": TB + "Not decided: numeric equality with the dense Kronecker product, non-negativity / normalisation of rotated probabilities, the in-place block arithmetic of _kron_mult beyond the stride order.",
     },
     "C06": {
-        "technique": "static analysis: term normal form of the CD update as a linear form (assume/guarantee stub for the positive phase), CFG dominance for the per-batch pipeline and the scheduler, effect/call-record pairing of gradient vectors with networks, exact slice offsets of vector_to_grads",
+        "technique": "static analysis: term normal form of the CD update as a linear form (assume/guarantee stub for the positive phase), CFG dominance for the per-batch pipeline and the scheduler, effect/call-record pairing of gradient vectors with networks, exact slice offsets of vector_to_grads; necessary-condition rules imported from C03.R2; call sites of fit resolved by interpretation (not by receiver names), per-path operation timeline",
         "text": "compute_batch_gradients == [positive[0] - E_grad(gibbs_steps(k, neg_batch)) / rows(neg_batch), positive[1]] with k and the negative batch forwarded unchanged (all state types); in fit the gradients are "
                 "computed, assigned network by network (gradient i -> parameters of network i) and applied by exactly one unconditional optimizer.step() per batch, never cleared in between; the optimizer is built over all "
                 "parameters with the caller's lr; scheduler.step() runs exactly once per epoch outside the batch loop; vector_to_grads writes vec[offset : offset+numel] reshaped to each parameter in parameters() order with exact polynomial offsets.",
@@ -119,7 +119,7 @@ CHECKS.update({
         "note": TB + "Not decided: uniformity of the shuffle. In the shared-permutation case the last negative batch has the size of the last positive batch (documented design).",
     },
     "C10": {
-        "technique": "static analysis: value-kind analysis of every return path, homogeneity degree of the normalisation constant seen through (multi)linear operations, term normal forms and call-record binding of KL/NLL",
+        "technique": "static analysis: value-kind analysis of every return path, homogeneity degree of the normalisation constant seen through (multi)linear operations, term normal forms and call-record binding of KL/NLL; history independence by a three-call abstract interpretation (parameters replaced, inputs overwritten in place) compared under symbol renaming; necessary-condition rules imported from C01, C02, C04.R2/R4",
         "text": "fidelity, KL and NLL return a Python/numpy float on every path of every state type; model probabilities inside every logarithm and the overlap have degree exactly -1 in Z (divided once); "
                 "single-basis KL == sum t log t - sum t log m and is called with (target, model); KL is the mean over the bases, NLL == -(1/N) sum over basis groups of sum log p with each group's samples rotated with the group's "
                 "own basis; target and model are rotated by the same routine with the same (basis, space).",
@@ -127,7 +127,7 @@ CHECKS.update({
         "note": TB + "Not decided: the Uhlmann formula / eigenvalue computation, ranges, invariance under a global phase (numeric). The rotation routines are decided by C04.",
     },
     "C16": {
-        "technique": "static analysis: abstract interpretation of the operator overloads and composite apply() with opaque leaf values (term normal forms), type-case enumeration of the constructors",
+        "technique": "static analysis: abstract interpretation of the operator overloads and composite apply() with opaque leaf values (term normal forms), type-case enumeration of the constructors; history independence by a three-call abstract interpretation (parameters replaced, inputs overwritten in place) compared under symbol renaming; leaf results that are views of the batch are never written",
         "text": "All seven overloads with float / int / numpy.float64 / constant scalars in both operand positions and nested trees evaluate to exactly that arithmetic on the leaves' per-sample values; "
                 "SumObservable adds each operand exactly once for every accepted type pair, ProdObservable stores (scalar, observable) whichever side the scalar was on; non-linear or non-numeric combinations "
                 "are rejected at construction; composites inherit the statistics drivers, which evaluate the composite's own apply().",
@@ -135,7 +135,7 @@ CHECKS.update({
         "note": TB + "Not decided: behaviour of numpy scalar types' own __mul__/__add__ when they pre-empt the reflected operators.",
     },
     "C17": {
-        "technique": "static analysis: path partitioning on the period gate (effects only on paths that established epoch % period == 0), writer/reader agreement between record layout and accessors after two evaluations, literal agreement of CSV keys, call-record binding for the saver",
+        "technique": "static analysis: path partitioning on the period gate (effects only on paths that established epoch % period == 0), writer/reader agreement between record layout and accessors after two evaluations, literal agreement of CSV keys, call-record binding for the saver; necessary-condition rules imported from C11.R1 and C12.R4",
         "text": "MetricEvaluator, ObservableEvaluator, ModelSaver, Logger and EarlyStopping act only on multiples of the period and in no other event (ModelSaver.on_train_start iff save_initial); each evaluation appends one "
                 "(epoch, values) record and sets last; len / epochs / names / per-name arrays / get_value (default most recent) / clear_history agree with that layout; CSV header == row keys; the saver names files by the "
                 "epoch ('initial'), passes (nn_state, epoch) to a callable metadata, saves dict metadata as is and None as {}.",
@@ -143,7 +143,7 @@ CHECKS.update({
         "note": TB + "Not decided: file contents. Metric functions, msg_gen and logger_fn are opaque user callables.",
     },
     "C18": {
-        "technique": "static analysis: integer linear forms of the lookback index and the history gate with path facts, term normal forms of the three criteria, path partitioning of the constructor refusals",
+        "technique": "static analysis: integer linear forms of the lookback index and the history gate with path facts, term normal forms of the three criteria, path partitioning of the constructor refusals; necessary-condition rules imported from C17.R2",
         "text": "All lookback reads use index -p-1 and happen only on paths where len(evaluator) > p and epoch % period == 0; the relative / absolute / variance criteria are |(M_look - M_cur)/M_look|, |M_look - M_cur|, "
                 "|M_look - M_cur|/sqrt(V_look); the comparison is strict `<`; success sets stop_training = True and last_epoch = epoch; variance + MetricEvaluator, unknown criteria and non-evaluators are refused; "
                 "the deprecated class selects the variance criterion.",
@@ -151,7 +151,7 @@ CHECKS.update({
         "note": TB + "Relies on C17.R2 (one record per evaluation). The monitored values are opaque.",
     },
     "C19": {
-        "technique": "static analysis: order-polarity domain (ascending/descending significance along the site axis) over the index terms, guard-before-allocation path check, literal/binding checks of the loaders",
+        "technique": "static analysis: order-polarity domain (ascending/descending significance along the site axis) over the index terms, guard-before-allocation path check, literal/binding checks of the loaders; history independence by a three-call abstract interpretation (parameters replaced, inputs overwritten in place) compared under symbol renaming and order independence of the enumeration",
         "text": "generate_hilbert_space, subspace_vector and _convert_basis_element_to_index are all big-endian (site 0 = most significant bit; rows in ascending integer order; weights 2^(n-1)..2^0); oversized spaces are "
                 "refused by `size > max_size` before any allocation; loaders read samples/targets as float32 and bases as str, map target columns 0/1 to real/imaginary, return [samples, target, bases, all bases] in order, "
                 "load_data_DM refuses a single matrix file; extract_refbasis_samples keeps samples[all(bases == 'Z', dim=1)].",
@@ -159,7 +159,7 @@ CHECKS.update({
         "note": TB + "Not decided: np.loadtxt parsing.",
     },
     "C20": {
-        "technique": "static analysis: attribute resolution along MRO / nn.Module API table (definite AttributeError = violation), storage-identity (alias) analysis of the two networks, constructor binding by abstract interpretation, zero-segment analysis of the phase gradient",
+        "technique": "static analysis: attribute resolution along MRO / nn.Module API table (definite AttributeError = violation), storage-identity (alias) analysis of the two networks, constructor binding by abstract interpretation, zero-segment analysis of the phase gradient; values after reinitialisation (no dependence on previous parameters)",
         "text": "With module= every state type is constructible, uses the given module as amplitude network with its sizes and (where present) a separate phase network with independent parameter storage of the same shapes; "
                 "from sizes the RBM constructors receive (num_visible, num_hidden[, num_aux]) under those names, weights are randn/sqrt(nv) and biases zero; reinitialisation redraws every network with unchanged shapes; complex "
                 "and mixed fit refuse a missing input_bases before anything happens; every producer of the phase network's gradient has a structurally zero auxiliary-bias segment.",
